@@ -476,6 +476,10 @@ class Runner:
                         lines.append('FPR %d %s %s' % (kk, hx(pk), hx(dd)))
                 bat.append(('STA', None, len(lines)))
                 lines.append('STA')
+                if self.focus in ('C04', 'C16'):
+                    # the length of the event-map file (the model follows set_len / the grow loop / reopen)
+                    bat.append(('MLN', None, len(lines)))
+                    lines.append('MLN')
                 if self.focus in ('C05', 'C09', 'C17', 'C18'):
                     # the byte keys the six query indexes really hold (verif hook), in LMDB's own order
                     bat.append(('KYS', None, len(lines)))
@@ -645,6 +649,21 @@ def judge(c, hists, oracles, relevant=None):
                         bad('oracle', '%s%s = %s, specification: %s' % (kind, (kk, dd[:10]), a[:20], [x[:14] for x in want]), bi)
                     if len(hs) > 1:
                         bad('oracle', 'two retrievable events at one replaceable address', bi)
+                elif kind == 'MLN':
+                    # the file only ever grows (a rebuild starts a new file), and holds the end marker
+                    try:
+                        ln = int(a)
+                    except ValueError:
+                        bad('oracle', 'the length of the event map could not be read: %s' % a[:40], bi)
+                        ln = None
+                    if ln is not None:
+                        prev_ln = h.get('_mln')
+                        if prev_ln is not None and ln < prev_ln and op['op'] != 'rebuild':
+                            bad('oracle', 'the event-map file shrank from %d to %d bytes' % (prev_ln, ln), bi)
+                        if ln % 8 != 0:
+                            bad('oracle', 'the event-map file length %d is not a multiple of 8' % ln, bi)
+                        h['_mln'] = ln
+                        c.count('map_length_compared')
                 elif kind == 'KYS':
                     # LMDB's iteration order is the bytewise order of the keys, table by table, no key twice
                     if a.startswith('ok'):
@@ -699,7 +718,7 @@ def judge(c, hists, oracles, relevant=None):
             # ---- failed store changes nothing (C12): battery before == battery after
             if 'noop' in oracles and op['op'] == 'store' and not rw.startswith('ok') and prev_bat is not None:
                 for key, val in cur.items():
-                    if key[0] == 'FND':
+                    if key[0] in ('FND', 'MLN'):      # (the file length is not an observable of the store's API)
                         continue
                     old = prev_bat.get(key)
                     if old is None:
@@ -713,7 +732,7 @@ def judge(c, hists, oracles, relevant=None):
             # ---- reopen / rebuild preserve everything observable (C16)
             if 'preserve' in oracles and op['op'] in ('reopen', 'rebuild') and prev_bat is not None:
                 for key, val in cur.items():
-                    if key[0] in ('FND', 'OFF'):
+                    if key[0] in ('FND', 'OFF') or (key[0] == 'MLN' and op['op'] == 'rebuild'):
                         continue
                     old = prev_bat.get(key)
                     if old is None:
